@@ -28,7 +28,7 @@ RULE = ("one fitted model per case (all families/profiles) x a random history of
         "distinct_nontrivial = distinct (family, history of (span, observed?) pairs) with at least two different spans.")
 ASSUMPTIONS = ["DatetimeIndex.freq of caller objects is recorded, not judged (cache-like metadata that pandas only lets agree with the values)",
                "model state is judged on what the statement names: the serialised form and the predictions (private caches are recorded, not judged)"]
-REQUIRED_REACH = {"predict.json_before_after": 25, "predict.history_vs_pristine": 25, "data.fit_fingerprint": 6, "data.predict_fingerprint": 25, "fit.model_added_disqualification": 1,
+REQUIRED_REACH = {"predict.json_before_after": 25, "predict.history_vs_pristine": 25, "data.fit_fingerprint": 6, "data.predict_fingerprint": 25, "fit.model_added_disqualification": 1, "fit.model_added_disqualification_to_an_already_disqualified_baseline": 1, "data.second_fit_on_the_same_data_object": 3,
                   "ctor.caller_frame_fingerprint": 20, "alias.df_probe": 6, "alias.prediction_probe": 6,
                   "history.other_model_of_another_configuration_used_in_between": 6, "alias.view_read": 10, "data.weighted_billing_model_used": 1}
 
@@ -109,6 +109,20 @@ def run_model_case(spec, keys):
     d_after = data_fp(data)
     if d_after != d_before:
         add("fit-modified-data-object:" + fam.kind, "fit() changed the baseline data object: %s" % I.fp_diff(d_before, d_after), diff=I.fp_diff(d_before, d_after))
+    if len(data.disqualification) and any("model_fit" in w.qualified_name for w in getattr(m, "disqualification", [])):
+        I.reach("fit.model_added_disqualification_to_an_already_disqualified_baseline")
+    if spec.get("poor_fit"):
+        # a second model fitted on the same data object: neither the data object nor the first model's own lists change
+        m_lists = ([w.json() for w in getattr(m, "warnings", [])], [w.json() for w in getattr(m, "disqualification", [])])
+        try:
+            fam.fit(fam.new_model(seed=spec["n"] + 2), data)
+            I.reach("data.second_fit_on_the_same_data_object")
+            if data_fp(data) != d_before:
+                add("fit-modified-data-object:%s:second-fit" % fam.kind, "a second fit() on the same baseline data object changed it: %s" % I.fp_diff(d_before, data_fp(data)))
+            if ([w.json() for w in getattr(m, "warnings", [])], [w.json() for w in getattr(m, "disqualification", [])]) != m_lists:
+                add("fit-of-another-model-changed-this-models-lists:" + fam.kind, "fitting a second model on the same data object changed the first model's warnings/disqualification")
+        except Exception:
+            I.reach("data.second_fit_raised_not_judged_here")
     try:
         js0 = model_json(fam, m)
     except Exception as e:
@@ -336,6 +350,10 @@ def gen_cases(tier, seed):
     cases = [dict(kind="model", family=f, tz=zones[i % len(zones)], length=3 if q else 8, n=i, timeout=3000) for i, f in enumerate(fams)]
     poor = ["daily:current", "hourly:default"] if q else ["daily:current", "daily:legacy", "billing", "hourly:default", "hourly:default:ghi"]
     cases += [dict(kind="model", family=f, tz=zones[(i + 1) % len(zones)], length=2, poor_fit=True, n=100 + i, timeout=3000) for i, f in enumerate(poor)]
+    # ... and the same on a baseline that is disqualified already (too short, fitted with the override): the data object's lists are not empty
+    # when the model adds its own notice
+    cases += [dict(kind="model", family=f, tz=zones[(i + 2) % len(zones)], length=2, poor_fit=True, baseline_days=[250, 200, 270][i % 3], n=150 + i, timeout=3000)
+              for i, f in enumerate(["daily:current", "billing", "hourly:default"] if q else poor + ["hourly:robust", "daily:custom-maps"])]
     # partial-year hourly baselines: the reporting year contains (month, weekday) cells the model never saw, whose treatment
     # depends on the reporting set - the place where state can leak between predicts
     part = ["hourly:default"] if q else ["hourly:default", "hourly:default:ghi", "hourly:robust", "hourly:clusters6"]
